@@ -79,7 +79,11 @@ def check_property(prop, tier="quick", seed=0, update_lock=False):
     fun_results = []
     undecided = []
     checker_errors = []
+    bounded_only = []
     for con in own:
+        if con.options.get("bounded_only"):
+            bounded_only.append(con.target)
+            continue
         if con.abstract or con.trusted:
             continue
         try:
@@ -209,7 +213,7 @@ def check_property(prop, tier="quick", seed=0, update_lock=False):
         json.dump(lock, open(LOCK, "w"), indent=0, sort_keys=True)
 
     write_evidence(prop, tier, seed, reg, meta, fun_results, all_obs, results, known_hits, violations, undecided,
-                   undecided_obs, checker_errors, rt, time.time() - t0, own, lemmas, axioms, vacuity)
+                   undecided_obs, checker_errors, rt, time.time() - t0, own, lemmas, axioms, vacuity, bounded_only)
     for l in lines:
         print(l)
     n_ok = sum(1 for r in results if r["verdict"] == "proved")
@@ -280,7 +284,7 @@ def write_rt_replay(prop, f):
 
 
 def write_evidence(prop, tier, seed, reg, meta, fun_results, all_obs, results, known_hits, violations, undecided,
-                   undecided_obs, checker_errors, rt, wall, own, lemmas, axioms, vacuity=None):
+                   undecided_obs, checker_errors, rt, wall, own, lemmas, axioms, vacuity=None, bounded_only=()):
     n = len(results)
     ok = sum(1 for r in results if r["verdict"] == "proved")
     backends = {}
@@ -340,6 +344,7 @@ def write_evidence(prop, tier, seed, reg, meta, fun_results, all_obs, results, k
             "undecided": undecided + [{"obligation": ob.name, "verdict": r["verdict"]} for ob, r in undecided_obs],
             "checker_errors": checker_errors,
             "vacuity": vacuity,
+            "bounded_only_functions": list(bounded_only),
             "extraction_drops": "docstrings, annotations, print/logger calls ignored; time.time() is a fresh real; calls are "
                                 "replaced by contracts; constructs outside the subset make the function undecided",
         },
